@@ -8,7 +8,7 @@ pid="$1"; patch="$(readlink -f "$2")"; tier="${3:-quick}"
 wt="/tmp/st_${pid}_$$"
 git -C /repo worktree add --detach "$wt" HEAD -q || exit 2
 if ! git -C "$wt" apply "$patch"; then echo "PATCH-DOES-NOT-APPLY"; git -C /repo worktree remove --force "$wt"; exit 2; fi
-FEMIO_REPO="$wt" ./check "$pid" --tier "$tier" > "build/seedtest_${pid}.log" 2>&1
+FEMIO_REPO="$wt" flock "build/.seed_${pid}.lock" ./check "$pid" --tier "$tier" > "build/seedtest_${pid}.log" 2>&1
 rc=$?
 grep -E "^(VIOLATION|KNOWN-FINDING)" "build/seedtest_${pid}.log"
 tail -1 "build/seedtest_${pid}.log"
